@@ -16,7 +16,8 @@ META = {
     "level_text": "For generated isolated activities (exec alone or sharing the CPU, mailbox comm with the peer arriving before/with/after the "
                   "waiter, disk read/write, message-queue put/get), the same program is first run with an un-timed wait(): that gives the date c "
                   "of the call and the natural completion date T (no closed-form model is used). The program is then re-run with the deadline at "
-                  "T-d, T and T+d (d from 1e-12 to a large fraction of T-c, call placed before, exactly at and after T) through wait_for (typed and "
+                  "T-d, T and T+d (d from 1e-12 to a large fraction of T-c, call placed before, exactly at and after T) and at the call date itself "
+                  "(timeout 0) through wait_for (typed and "
                   "Activity:: entry points, on started and on not-yet-started activities), wait_until, wait_for_or_cancel and "
                   "ActivitySet::wait_any_for (alone, with a never-ending and with an earlier-ending second activity). Demanded: timeout iff T is "
                   "after the deadline, success iff before, success on an exact tie for activities carried by a resource action; the call returns at "
@@ -27,13 +28,19 @@ META = {
     "level_note": "Tolerance = precision/timing (1e-9) + 4 ulp of the dates; a deadline closer to T than that (or than the work a model rounds "
                   "away: 1e-5 flop/byte, 1 byte for disks) is a tie zone where both outcomes are accepted, as are exact ties for message-queue "
                   "rendez-vous (completion caused by another actor at the same date) and for wait_any_for (the statement says 'before'). "
-                  "wait_until with a limit that is not in the future returns silently by design of the code; the statement does not cover it and "
-                  "it is only counted. No failures, no suspension, default models (Cas01/LV08 lazy, S19 disk). asan flavour on a tenth of the bases.",
+                  "Outside the tie zone the observed return dates are exact (error <= 1 ulp, reported as worst_*_date_error_outside_tie_zone); the "
+                  "verdict still uses the documented 1e-9. That an activity survives a plain wait_for timeout (and completes at T) is read from "
+                  "the statement's distinction between wait_for and wait_for_or_cancel. wait_until with a limit that is not in the future returns "
+                  "silently by design of the code; the statement does not cover it and it is not generated. wait_for on a not-yet-started activity "
+                  "is a documented use (Activity.hpp: start() is optional; examples exec-waitfor, energy-exec-ptask) and is only generated with the "
+                  "call at the creation date. No failures, no suspension, default models (Cas01/LV08 lazy, S19 disk). The asan flavour (thread "
+                  "contexts) runs a third of the at-creation variants of half of the directed bases and a sixteenth of the generated bases. VERIF_C12_CORRUPT falsifies the harness log "
+                  "for the oracle self-test only.",
     "rule": "case = one timed variant (activity, call placement, wait flavour, deadline); non-trivial = distinct variants fully checked whose call "
             "happens while the activity is still in flight (c < T)",
     "assumptions": ["two runs of the same program prefix give bit-identical dates (checked: the call date of every timed run is compared with "
                     "the reference run, a mismatch is inconclusive)"],
-    "ready": False,
+    "ready": True,
 }
 
 HARNESS = "timedwait.cpp"
@@ -54,9 +61,42 @@ def spec_line(d):
     return " ".join("%s=%s" % (k, fnum(v)) for k, v in d.items() if not k.startswith("_"))
 
 
+def corrupt(line, how):
+    """Oracle self-test only (VERIF_C12_CORRUPT=flip-outcome|shift-ret|early-ret|cancel-noop|any-wrong|lost-payload|dup-payload): falsifies
+    what the harness reported for the timed runs (ids *.vN / var), as a defect of the timed waits would."""
+    t = line.split()
+    if len(t) < 4 or t[0] != "R" or not (".v" in t[1] or t[1] == "var"):
+        return line
+    kv = dict(x.split("=", 1) for x in t[4:] if "=" in x)
+    who, tag = t[2], t[3]
+    if who == "waiter" and tag == "ret":
+        if how == "flip-outcome":
+            kv["out"] = "timeout" if kv["out"] == "ok" else "ok"
+        elif how == "shift-ret":
+            kv["clock"] = repr(float(kv["clock"]) + 1e-6)
+        elif how == "early-ret" and kv["out"] == "timeout":
+            kv["clock"] = repr(float(kv["clock"]) * (1 - 1e-7) - 1e-8)
+        elif how == "any-wrong" and kv["which"] == "main":
+            kv["which"] = "decoy"
+        else:
+            return line
+    elif who == "waiter" and tag in ("cancelchk", "later") and how == "cancel-noop":
+        kv["state"] = "STARTED"
+    elif who == "waiter" and tag == "rbuf" and how == "lost-payload" and kv["payload"] == "orig":
+        kv["payload"] = "null"
+    elif who == "peer" and tag == "get" and how == "dup-payload" and kv.get("payload") == "bye":
+        kv["payload"] = "orig"
+    else:
+        return line
+    return " ".join(t[:4] + ["%s=%s" % x for x in kv.items()])
+
+
 def parse(out):
     res, cur = {}, None
+    how = os.environ.get("VERIF_C12_CORRUPT")
     for line in out.splitlines():
+        if how:
+            line = corrupt(line, how)
         if line.startswith("B "):
             cur = line[2:].strip()
             res[cur] = {"status": None, "recs": [], "noise": []}
@@ -158,15 +198,26 @@ def timeout_for(c, D):
     return t
 
 
+def named_placement(name, c0, T0):
+    span = T0 - c0
+    if name == "in-flight":
+        return {"_pl": name, "w": 0.4 * span}
+    if name == "at-completion":
+        return {"_pl": name, "wabs": T0}
+    if name == "after-completion":
+        return {"_pl": name, "w": span * 1.5 + 0.25}
+    return {"_pl": "at-creation"}
+
+
 def placements(rng, b, c0, T0):
     """Where the timed call is placed w.r.t. the natural completion date measured by the first reference run."""
     span = T0 - c0
-    out = [{"_pl": "at-creation"}]
+    out = [named_placement("at-creation", c0, T0)]
     alts = []
     if span > 0:
-        alts.append({"_pl": "in-flight", "w": 0.4 * span})
-        alts.append({"_pl": "at-completion", "wabs": T0})
-    alts.append({"_pl": "after-completion", "w": span * 1.5 + 0.25})
+        alts.append(named_placement("in-flight", c0, T0))
+        alts.append(named_placement("at-completion", c0, T0))
+    alts.append(named_placement("after-completion", c0, T0))
     out.append(rng.choice(alts))
     if rng.random() < 0.6:
         long_ = rng.random() < 0.5
@@ -312,6 +363,10 @@ def judge(ctx, ref, spec, run, w):
     if abs(rc - want) > eps + (abs(Tm - D) if cls == "tie" else 0.0):
         return vio("return-date:" + out, "the call returned '%s' at %r, expected %r (off by %.3g)" % (out, rc, want, rc - want))
     ctx.maximum("worst_return_date_error", abs(rc - want))
+    if cls != "tie":
+        ctx.maximum("worst_%s_date_error_outside_tie_zone" % out, abs(rc - want))
+        if out == "timeout" and rc == D:
+            ctx.count("timeout.raised-at-exactly-call+t")
     if rc < c:
         return vio("clock-went-back", "returned at %r before the call date %r" % (rc, c))
 
@@ -355,6 +410,8 @@ def judge(ctx, ref, spec, run, w):
     # ---- after wait_for_or_cancel timed out: really stopped
     if cancelled:
         chk, later = first(run, "waiter", "cancelchk"), first(run, "waiter", "later")
+        if chk is None or later is None:
+            return vio("stuck", "the waiter did not get past the cancelling timed wait")
         for r in (chk, later):
             if r["state"] != "CANCELED":
                 return vio("cancel-ineffective", "state %s after wait_for_or_cancel timed out" % r["state"])
@@ -405,7 +462,9 @@ def pipeline(ctx, fl, bases, nvar, workers=None):
             ctx.inconclusive("reference run failed or timed out")
             continue
         ref0["nat"] = ref0["T"] - ref0["created"]      # isolated duration of the activity (started at its creation in the reference)
-        for k, pl in enumerate(b.get("_placements") or placements(ctx.sub_rng("pl", n), b, ref0["c"], ref0["T"])):
+        pls = ([named_placement(x, ref0["c"], ref0["T"]) for x in b["_placements"]] if "_placements" in b
+               else placements(ctx.sub_rng("pl", n), b, ref0["c"], ref0["T"]))
+        for k, pl in enumerate(pls):
             todo.append(("%s.p%d" % (n, k), b, pl, ref_spec(b, pl), ref0 if len(pl) == 1 else None, ref0["nat"]))
     need = [dict(rs, id=n) for n, b, pl, rs, known, nat in todo if known is None]
     r1 = run_batch(ctx, fl, need, workers)
@@ -420,7 +479,11 @@ def pipeline(ctx, fl, bases, nvar, workers=None):
         if ref is None:
             ctx.inconclusive("reference run failed or timed out")
             continue
-        vs = b.get("_variants") if b.get("_variants") is not None else variants(ctx.sub_rng("v", n), b, pl, ref, nvar)
+        if "_directed" in b:
+            k0, step = b["_directed"]
+            vs = directed_variants(b, pl, ref)[k0::step]
+        else:
+            vs = variants(ctx.sub_rng("v", n), b, pl, ref, nvar)
         for k, v in enumerate(vs):
             v = dict(v)
             v.update({x: y for x, y in b.items() if not x.startswith("_")})
@@ -439,55 +502,54 @@ def pipeline(ctx, fl, bases, nvar, workers=None):
 # Directed cases: always run (the known findings are re-found by them on every run).
 def directed():
     out = []
-    # exact tie and both sides of it for each kind / flavour, call at creation
-    for kind, extra in (("exec", {"speed": 1e9, "flops": 3e8}), ("io", {"ioop": "read", "rbw": 1e8, "wbw": 5e7, "iosize": 1e8}),
-                        ("comm", {"role": "send", "bw": 1e8, "lat": 1e-4, "size": 1e7, "p": 0.25}),
-                        ("comm", {"role": "recv", "bw": 1e8, "lat": 1e-4, "size": 1e7, "p": 0.0}),
-                        ("mess", {"role": "get", "p": 0.45}), ("mess", {"role": "put", "p": 0.45})):
+    # exact tie and both sides of it for each kind / flavour, call at creation; for some also in flight and exactly at the completion date
+    for kind, extra, pls in (("exec", {"speed": 1e9, "flops": 3e8}, ["at-creation", "at-completion"]),
+                             ("io", {"ioop": "read", "rbw": 1e8, "wbw": 5e7, "iosize": 1e8}, ["at-creation"]),
+                             ("comm", {"role": "send", "bw": 1e8, "lat": 1e-4, "size": 1e7, "p": 0.25}, ["at-creation"]),
+                             ("comm", {"role": "recv", "bw": 1e8, "lat": 1e-4, "size": 1e7, "p": 0.0}, ["at-creation", "in-flight"]),
+                             ("mess", {"role": "get", "p": 0.45}, ["at-creation", "at-completion"]),
+                             ("mess", {"role": "put", "p": 0.45}, ["at-creation"])):
         b = {"kind": kind, "pre": 0.1}
         b.update(extra)
-        b["_placements"] = [{"_pl": "at-creation"}]
+        b["_placements"] = pls
+        b["_directed"] = (0, 1)
         out.append(b)
     return out
 
 
-def directed_variants(b, ref):
-    """Deadline at T-1e-3, T, T+1e-3 through every wait flavour, on started and unstarted activities."""
+def directed_variants(b, pl, ref):
+    """Deadline at T-1e-3, T, T+1e-3 and at the call date itself (timeout 0) through every wait flavour, on started and (when the call is
+    placed at the creation, so that the start date is the same as in the reference run) on not-yet-started activities."""
     c, T = ref["c"], ref["T"]
+    modes = MODES_STARTED + (MODES_UNSTARTED if pl["_pl"] == "at-creation" else [])
     vs = []
-    for off in (-1e-3, 0.0, 1e-3):
-        for mode, via, started in MODES_STARTED + MODES_UNSTARTED:
-            D = T + off
-            tv = D if mode == "until" else timeout_for(c, D)
+    for off in (-1e-3, 0.0, 1e-3, None):
+        for mode, via, started in modes:
+            D = c if off is None else T + off
+            if D < c or (mode == "until" and D <= c):
+                continue
+            tv = D if mode == "until" else (0.0 if off is None else timeout_for(c, D))
             v = {"mode": mode, "via": via, "started": started, "tv": tv}
             if mode == "forcancel":
                 v["z"] = 1e-3
             if b["kind"] in ("exec", "io") and mode in ("for", "forcancel"):
                 v["probe"] = 1
-            vs.append(v)
+            if v not in vs:
+                vs.append(v)
     return vs
 
 
 def run(ctx):
-    nb = ctx.size(50, 2500)
+    nb = ctx.size(44, 2000)
     nvar = 6
     for fl in ("hooks", "asan"):
         build.harness(HARNESS, fl)
     dbases = [("d%d" % i, b) for i, b in enumerate(directed())]
-    # directed variants need the reference first: a tiny pipeline of its own
-    r0 = run_batch(ctx, "hooks", [dict(ref_spec(b), id="%s.r0" % n) for n, b in dbases])
-    for n, b in dbases:
-        ref0 = read_ref(r0.get("%s.r0" % n))
-        if ref0 is None:
-            ctx.inconclusive("directed reference run failed")
-            b["_variants"] = []
-        else:
-            b["_variants"] = directed_variants(b, ref0)
     gbases = [("g%d" % i, gen_base(ctx.sub_rng("b", i))) for i in range(nb)]
     # asan leg (slow: a forked ASan child costs ~10x a plain one): three directed bases with a third of their variants and a few generated
     # bases, run beside the hooks leg on a third of the workers
     na = max(3, nb // 16)
-    abases = [(n, dict(b, _variants=b["_variants"][k::3])) for k, (n, b) in enumerate(dbases[::2])] + [("a%d" % i, b) for i, (_, b) in enumerate(gbases[:na])]
+    abases = [(n, dict(b, _directed=(k, 3), _placements=["at-creation"])) for k, (n, b) in enumerate(dbases[::2])] + [("a%d" % i, b) for i, (_, b) in enumerate(gbases[:na])]
     err = []
 
     def asan_leg():
